@@ -14,8 +14,8 @@ COQ = os.path.join(VERIF, "coq")
 TOOLS = os.path.join(VERIF, "tools")
 REPO = os.environ.get("RD_REPO", "/repo")
 PY = "/venv/bin/python"
-EVID = os.path.join(VERIF, "evidence")
-REPLAYS = os.path.join(VERIF, "replays")
+EVID = os.environ.get("VERIF_EVIDENCE_DIR") or os.path.join(VERIF, "evidence")   # (seeded-mutant runs write elsewhere)
+REPLAYS = os.environ.get("VERIF_REPLAY_DIR") or os.path.join(VERIF, "replays")
 SCRATCH = os.path.join(VERIF, ".scratch")      # build / case files (ignored by git)
 NPROC = os.cpu_count() or 8
 
